@@ -63,7 +63,8 @@ def plan(tier, seed):
     hj = [{'clauses': g, 'steps': 2 if quick else 3} for g in groups]
     famH = dict(name='compile_histories', module=H, fn='compile_history', jobs=hj, timeout=600 if quick else 2400,
                 vacuity=1, mutants=[{'name': 'memo_parse_defines', 'cfg': {'clauses': ['define-expr', 'reserved-define'], 'steps': 2}},
-                                    {'name': 'memo_expression_compiler', 'cfg': {'clauses': ['content-expr', 'interpolation'], 'steps': 2}}])
+                                    {'name': 'memo_expression_compiler', 'cfg': {'clauses': ['content-expr', 'interpolation'], 'steps': 2}},
+                                    {'name': 'expression_error_token_flattened', 'cfg': {'clauses': ['multiline-content', 'multiline-interpolation'], 'steps': 1}}])
     return dict(
         level='model_checking',
         functions=['chameleon.tokenize:Token.__getitem__', 'chameleon.tokenize:Token.split',
@@ -84,7 +85,7 @@ def plan(tier, seed):
                 'rejected; compile histories: %d erroneous clauses (invalid expression in define / second define part / '
                 'content / behind not: / ${} in text and attribute / tal:attributes, reserved names in define, tuple '
                 'define and repeat, malformed define, unknown statement, content+replace, stray end tag, duplicate '
-                'i18n:attributes) each behind one of 6 paddings (other offsets, lines and columns), %d compilations one '
+                'i18n:attributes, expressions written over several lines) each behind one of 6 paddings (other offsets, lines and columns), %d compilations one '
                 'after the other in one process for every choice of clause and padding (the choice is the solver\'s, each '
                 'compilation is concrete): token, offset, line and column must be those of the compilation that raised. '
                 'Outside: error tokens of symbolic expressions (Python parser is a C boundary), ";;" escapes and '
